@@ -2,7 +2,7 @@
 import vf
 vf.use_repo()
 from ak import llparser  # noqa: E402
-from ak.llparser import ListProds, MapProds, ProdSequence, TElement  # noqa: E402
+from ak.llparser import ListProds, MapProds, ProdSequence, TElement, AnyTokenExcept  # noqa: E402
 from vf.core import sig_of  # noqa: E402
 
 ID = "C05"
@@ -38,15 +38,15 @@ TECHNIQUE = "runtime monitoring: render/parse round-trip oracle over generated d
 
 TOK = r"""(?P<SPACE>\s+)|(?P<COMMENT>\#.*)|(?P<WORD>[a-z]+)|(?P<NUMBER>[0-9]+)
     |(?P<BO>\[)|(?P<BC>\])|(?P<CO>\{)|(?P<CC>\})|(?P<COMMA>,)|(?P<COLON>:)|(?P<LT><)|(?P<GT>>)|(?P<SC>;)
-    |(?P<PO>\()|(?P<PC>\))|(?P<PIPE>\|)"""
+    |(?P<PO>\()|(?P<PC>\))|(?P<PIPE>\|)|(?P<PCT>%)"""
 SYN = {'BO': '[', 'BC': ']', 'CO': '{', 'CC': '}', 'COMMA': ',', 'COLON': ':', 'LT': '<', 'GT': '>',
-       'SC': ';', 'PO': '(', 'PC': ')', 'PIPE': '|'}
+       'SC': ';', 'PO': '(', 'PC': ')', 'PIPE': '|', 'PCT': '%'}
 
 
 def gen_options(rng):
     o = dict(delim=rng.random() < 0.75, afd=rng.random() < 0.5, mafd=rng.random() < 0.5,
              bdelim=rng.random() < 0.5, b2delim=rng.random() < 0.5, nullable_item=False,
-             bmafd=rng.random() < 0.5, bm_same=rng.random() < 0.4, b_nullable=False,
+             bmafd=rng.random() < 0.5, bm_same=rng.random() < 0.4, b_nullable=False, seq_any=rng.random() < 0.3,
              seq_containers=rng.random() < 0.3)
     if o['delim'] and not o['afd'] and rng.random() < 0.4:
         o['nullable_item'] = True
@@ -57,12 +57,19 @@ def gen_options(rng):
 
 def mk_parser(o):
     seq_symbols = ['WORD', 'NUMBER', 'PAR'] + (['LIST', 'MAP'] if o['seq_containers'] else [])
+    if o.get('seq_any'):
+        # "any token except ..." in front of the explicitly named element symbols
+        seq_symbols = [AnyTokenExcept('[', ']', '{', '}', ',', ':', '<', '>', ';', '(', ')', '|', '%')] + seq_symbols[2:]
     prods = {
         'E': [('BL2', '|', 'BMAP', '|', 'VALUE', ';', 'OPT_TAIL')],
         'BMAP': MapProds(None, 'WORD', ':', 'WORD' if o['bm_same'] else 'NUMBER', ',', None,
                          allow_final_delimiter=o['bmafd']),
         'OPT_TAIL': [('OLIST', 'OMAP', 'BLIST')],
-        'VALUE': [('WORD',), ('NUMBER',), ('LIST',), ('MAP',), ('SEQ_H',)],
+        'VALUE': [('WORD',), ('NUMBER',), ('LIST',), ('MAP',), ('SEQ_H',), ('MX_H',)],
+        # a list whose items are directly bracket-less lists: "% [a, b; ; c]"
+        'MX_H': [('%', 'MATRIX')],
+        'MATRIX': ListProds('[', 'ROW', ';', ']', allow_final_delimiter=False),
+        'ROW': ListProds(None, 'WORD', ',', None),
         'LIST': ListProds('[', 'ITEM', ',' if o['delim'] else None, ']',
                           allow_final_delimiter=o['afd'] if o['delim'] else None),
         'ITEM': [('VALUE',)] + ([None] if o['nullable_item'] else []),
@@ -94,9 +101,15 @@ def gen_val(rng, d, o, in_seq=False):
         if items == [None]:
             items = []
         return ('L', items)
-    if r < 0.85:
+    if r < 0.8:
         ks = [rng.choice(KEYS) for _ in range(rng.choice([0, 1, 2, 4, 7]) if d < 3 else rng.choice([0, 1, 2]))]
         return ('M', [(k, gen_val(rng, d + 1, o)) for k in ks])
+    if r < 0.86 and not in_seq:
+        rows = [[rng.choice(["a", "bc", "zz"]) for _ in range(rng.choice([0, 0, 1, 2, 3]))]
+                for _ in range(rng.choice([0, 1, 2, 3, 5]))]
+        if rows == [[]]:
+            rows = []          # a single empty row is textually the empty matrix
+        return ('X', rows)
     if in_seq:
         return rng.choice(ATOMS)
     elems = []
@@ -169,6 +182,9 @@ class Renderer:
                 body += ws(rng) + ","
                 self.bad_done = True
             return "{" + ws(rng) + body + ws(rng) + "}"
+        if k == 'X':
+            return "%" + ws(rng) + "[" + ws(rng) + (ws(rng) + ";" + ws(rng)).join(
+                (ws(rng) + "," + ws(rng)).join(row) for row in x) + ws(rng) + "]"
         if k == 'S':
             parts = []
             for e in x:
@@ -191,6 +207,8 @@ def expect(v):
     if k == 'S':
         return ('TE', 'SEQ_H', ['<', [('TE', 'PAR', ['(', e[1], ')']) if isinstance(e, tuple) and e[0] == 'P'
                                       else expect(e) for e in x], '>'])
+    if k == 'X':
+        return ('TE', 'MX_H', ['%', [list(row) for row in x]])
     raise AssertionError(k)
 
 
@@ -269,6 +287,8 @@ def depth_info(v, d=0):
     if not isinstance(v, tuple):
         return d, False, False
     k, x = v
+    if k == 'X':
+        return d + 2, True, False
     kids = [i for i in x] if k in ('L', 'S') else [vv for _, vv in x]
     md, hl, hm = d + 1, k == 'L', k == 'M'
     for c in kids:
@@ -282,6 +302,8 @@ def count_containers(v):
     if not isinstance(v, tuple) or v[0] == 'P':
         return 0
     k, x = v
+    if k == 'X':
+        return 0       # (the matrix never takes part in the final-delimiter cases)
     kids = x if k in ('L', 'S') else [vv for _, vv in x]
     return (1 if k in ('L', 'M') else 0) + sum(count_containers(c) for c in kids)
 
@@ -290,6 +312,8 @@ def has_repeated_keys(v):
     if not isinstance(v, tuple) or v[0] == 'P':
         return False
     k, x = v
+    if k == 'X':
+        return False
     if k == 'M':
         keys = [kk for kk, _ in x]
         if len(set(keys)) < len(keys):
@@ -406,6 +430,8 @@ def count_seq_containers(v):
     if not isinstance(v, tuple) or v[0] == 'P':
         return 0
     k, x = v
+    if k == 'X':
+        return 0
     if k == 'S':
         return sum(1 for e in x if isinstance(e, tuple) and e[0] in ('L', 'M'))
     kids = x if k == 'L' else [vv for _, vv in x]
